@@ -367,6 +367,30 @@ def symbol_tables(model, R):
     R.soft(seq == want, 'LAYOUT', wk, wk.node, 'wiki-table layout: header cells with !!, one |- row per object with || cells', str(want), str(seq))
 
 
+def label_fidelity(model, R):
+    """Labels pass through the csv loader and the python-literal writer untouched (these two formats promise to represent
+    any printable text): the csv loader returns exactly the cells the reader produced, the literal writer emits each
+    label once through repr() on one line."""
+    lo = model.func('formats.csv_context.Csv.loadf')
+    rets = [n for n in walk(lo.body) if isinstance(n, ast.Return) and n.value is not None]
+    R.same(len(rets) == 1 and src(rets[0].value) == 'ContextArgs(objects, properties, bools)', 'FIDELITY', lo, rets[0] if rets else lo.node,
+           'csv loader returns the collected labels and cells as they were read', 'ContextArgs(objects, properties, bools)',
+           src(rets[0].value) if rets else 'no return')
+    touched = [n for n in walk(lo.body) if isinstance(n, ast.Call) and isinstance(n.func, ast.Attribute)
+               and n.func.attr in ('strip', 'lstrip', 'rstrip', 'lower', 'upper', 'title', 'replace', 'split', 'splitlines', 'casefold', 'translate')]
+    R.decided(not touched, 'FIDELITY', lo, touched[0] if touched else lo.node, 'csv loader does not normalise label text', 'labels stored as read',
+              src(touched[0]) if touched else '')
+    df = model.func('formats.python_literal.dump_file')
+    it = df.nested.get('iterlines')
+    if it is None:
+        R.unknown('FIDELITY', df, df.node, 'python-literal writer: label lines', 'nested iterlines not found')
+    else:
+        text = src(it.node)
+        R.same("line = ', '.join(map(repr, doc[key]))" in text and "[f'{indent * 2}{line},']" in text, 'FIDELITY', it, it.node,
+               'python-literal writer: every label through repr(), the whole list on one line (a Python literal cannot be re-wrapped at blanks)',
+               "line = ', '.join(map(repr, doc[key])); yield from itersection(key, [f'{indent * 2}{line},'])", 'label line built differently')
+
+
 def index_exports(model, R):
     R.floor('INDEX-EXPORT', 5)
     f = model.func('formats.fimi.iter_fimi_rows')
@@ -438,4 +462,5 @@ def run(model, R):
     R.guard('PARAM-CLOBBER', None, 'parameters', param_clobber, model, R)
     R.guard('SYMBOLS', None, 'symbol tables', symbol_tables, model, R)
     R.guard('INDEX-EXPORT', None, 'index exports', index_exports, model, R)
+    R.guard('FIDELITY', None, 'label fidelity', label_fidelity, model, R)
     return __doc__.strip()
